@@ -11,7 +11,8 @@ the implementation's raw override attributes (class / instance __dict__ entries 
 state is first reached it is additionally *rendered*: the framing actually produced by every instance and by a
 fresh instance of every class (LINES strips vs. one WHOLE image, PNG / JPEG / file bytes of the iterm2 payload,
 decoded by the terminal model) must be the one the reference model's effective values dictate, and a per-call
-override (`+L` / `+W`) must win.  A violating transition is reported and not expanded.
+override (`+L` / `+W`, `draw(method=...)`, the format spec of a cached ImageIterator incl. the frames it
+re-renders after a size change) must win.  A violating transition is reported and not expanded.
 
 Reference (DESIGN B.3): override[setting][node] partial map; effective = own override, else the parent's
 (instance -> its class -> base classes), else the documented default (render method: the style's default,
@@ -163,6 +164,7 @@ def source_file():
         _FILES["png"] = p
         with open(p, "rb") as f:
             _FILES["bytes"] = f.read()
+        _FILES["gif"] = imgkit.gif(2, 4, 2, path=os.path.join(imgkit.tmpdir(), "c20-anim.gif"))
     return p
 
 
@@ -438,6 +440,8 @@ def render_observations(col, L, prog, history, case, quick=False):
         T.model.apply(op)
         impl_apply(L, T, op)
     m = T.model
+    if prog["group"] in ("rm", "mixed"):
+        iterator_observations(col, L, prog, T, history, case)
     nodes = m.classes + m.instances
     if quick:                              # quick tier: a fresh instance of the most derived class only
         nodes = m.classes[-1:] + m.instances
@@ -474,6 +478,39 @@ def render_observations(col, L, prog, history, case, quick=False):
                                   f"iterm2/{prog['shape']}: after {history}: WHOLE render of {n} carries {got[1]} "
                                   f"data, effective read_from_file={rff} jpeg_quality={jq} dictate {want_payload}",
                                   case)
+
+
+def iterator_observations(col, L, prog, T, history, case):
+    """A cached ImageIterator whose format spec overrides the render method: the override holds for every frame
+    it yields - those of the first loop and those re-rendered in a later loop because the image size changed in
+    between (stale cache entries)."""
+    root = prog["root"]
+    m = T.model
+    n = m.classes[-1]
+    eff = m.eff("rm", n)
+    over, want = ("+W", "whole") if eff == "lines" else ("+L", "lines")
+    anim = T.nodes[n].from_file(_FILES["gif"], width=1, height=2)
+    it = L.common.ImageIterator(anim, 2, "1.1" + over, True)
+    try:
+        for loop, size in ((1, None), (2, (2, 2))):
+            if size:
+                anim.size = size            # every cached frame is stale now
+            for k in range(2):
+                frame = next(it)
+                col.count()
+                col.inc("renders")
+                col.inc("iterator_frames")
+                got = framing(frame, root)
+                if got[0] != want:
+                    col.violation(dict(clause="iterator-per-call-override", root=root, loop=loop,
+                                       resized=bool(size)),
+                                  f"{root}/{prog['shape']}: after {history}: frame {k} of loop {loop} of a cached "
+                                  f"ImageIterator(image of {n}, 2, '1.1{over}')" +
+                                  (f" after image.size = {size}" if size else "") +
+                                  f" is framed as {got}; effective method {eff!r}, override {over}", case)
+    finally:
+        it.close()
+        anim.close()
 
 
 # ------------------------------------------------------------------------------------------ alphabets
